@@ -113,6 +113,12 @@ func (zns *ZnPMServer) Start(connUrl string) error {
 // ///// MASTER logic ///////
 // //////////////////////////
 func (zns *ZnPMServer) StartMaster(connUrl string, cfg ZnPMServerConfig) error {
+	// --max-procs is the hard bound: an initial number above it (e.g. the default --init-procs
+	// together with a small --max-procs) is cut down to it, or the pool would start - and be
+	// topped up after every exit - beyond the bound
+	if cfg.MaxProcs > 0 && cfg.InitProcs > cfg.MaxProcs {
+		cfg.InitProcs = cfg.MaxProcs
+	}
 	network, address, err := parseConnUrl(connUrl)
 	if err != nil {
 		return err
